@@ -103,7 +103,7 @@ TAGS = frozenset({
     "boolop", "cmp", "tuple", "list", "set", "dict", "fstr", "phi", "ifexp", "comp", "bv", "lambda", "loopvar",
     "carried", "loopout", "mut", "setitem", "setattr", "retphi", "not", "undef", "unknown", "modvar", "in-loop",
     # normal forms (alg.py / rules_kernel.py)
-    "poly", "op", "ifnone", "if", "qsel", "msg", "cap", "tvar", "basevar", "name", "bar", "cat", "seq", "bottom", "fn", "fold", "loopstate", "rep",
+    "poly", "op", "ifnone", "if", "qsel", "msg", "cap", "tvar", "basevar", "name", "bar", "cat", "seq", "bottom", "fn", "fold", "loopstate", "rep", "gtable",
 })
 _STR_SECOND = frozenset({"glob", "func", "class", "param", "modvar", "closure", "loopvar", "carried", "loopout", "unknown"})
 
